@@ -55,10 +55,50 @@ func T3EncBufferBounds(p *AsmProg, kind string) func(x *Exec) {
 		hdr := x.newObject(16, nil, "string-header")
 		x.storeLeaf(hdr, 0, 8, Ptr{Obj: str, Off: x.c64(0)})
 		x.storeLeaf(hdr, 8, 8, slen)
+		// every source string the generated code may quote, with what the quoter consumed so far
+		srcs := map[*Object]*t3src{str: {length: slen, consumed: x.c64(0)}}
 		var vp Ptr
 		switch kind {
 		case "string", "qstring":
 			vp = Ptr{Obj: hdr, Off: x.c64(0)}
+		case "slice_string":
+			// []string with 0..2 elements, each a string of 0..2 bytes
+			n := int(x.Concretize(func() *smt.Term {
+				t := x.newInput("elems", 64)
+				x.assume(s.Ule(t, x.c64(2)))
+				return t
+			}()))
+			arr := x.newObject(16*2, nil, "string-array")
+			for i := 0; i < n; i++ {
+				el := x.newInput(fmt.Sprintf("elemlen[%d]", i), 64)
+				x.assume(s.Ule(el, x.c64(2)))
+				x.setRange(el, 0, 2)
+				eo := x.newBytes(2, fmt.Sprintf("elem%d", i))
+				eo.LSize = el
+				eo.ReadOnly = true
+				eo.Cells[0], eo.Cells[1] = &cell{1, x.junk(8)}, &cell{1, x.junk(8)}
+				x.storeLeaf(arr, 16*i, 8, Ptr{Obj: eo, Off: x.c64(0)})
+				x.storeLeaf(arr, 16*i+8, 8, el)
+				srcs[eo] = &t3src{length: el, consumed: x.c64(0)}
+			}
+			sh := x.newObject(24, nil, "slice-header")
+			x.storeLeaf(sh, 0, 8, Ptr{Obj: arr, Off: x.c64(0)})
+			x.storeLeaf(sh, 8, 8, x.c64(int64(n)))
+			x.storeLeaf(sh, 16, 8, x.c64(2))
+			vp = Ptr{Obj: sh, Off: x.c64(0)}
+		case "bytes":
+			// []byte of 0..6 bytes
+			bl := x.newInput("byteslen", 64)
+			x.assume(s.Ule(bl, x.c64(6)))
+			x.setRange(bl, 0, 6)
+			bo := x.newBytes(6, "bytes")
+			bo.LSize = bl
+			bo.Junk = func(off int) *smt.Term { return x.junk(8) }
+			sh := x.newObject(24, nil, "slice-header")
+			x.storeLeaf(sh, 0, 8, Ptr{Obj: bo, Off: x.c64(0)})
+			x.storeLeaf(sh, 8, 8, bl)
+			x.storeLeaf(sh, 16, 8, x.c64(6))
+			vp = Ptr{Obj: sh, Off: x.c64(0)}
 		case "scalar", "marshaler":
 			// an 8-byte scalar (integer of any width, float, bool in the low byte): arbitrary bits
 			sc := x.newObject(8, nil, "scalar")
@@ -75,7 +115,6 @@ func T3EncBufferBounds(p *AsmProg, kind string) func(x *Exec) {
 
 		cur := buf // the current output buffer (replaced by GrowSlice)
 		nospace, ncalls := 0, 0
-		consumed := x.c64(0) // input bytes the native quoter reported as consumed so far
 		marshalerCalled := false
 		returned := false
 		var dbgTrace []int
@@ -109,11 +148,14 @@ func T3EncBufferBounds(p *AsmProg, kind string) func(x *Exec) {
 					nb := x.asmTerm(as.R["SI"])
 					// the input window is exactly the part of the string not consumed by earlier
 					// rounds: nothing quoted twice, nothing skipped, nothing read past the end
-					if sp, ok := as.R["DI"].(Ptr); ok && sp.Obj == str {
-						x.check(s.BAnd(s.Eq(sp.Off, consumed), s.Eq(nb, s.Sub(slen, consumed))), "assert",
+					var src *t3src
+					if sp, ok := as.R["DI"].(Ptr); ok && srcs[sp.Obj] != nil {
+						src = srcs[sp.Obj]
+						x.check(s.BAnd(s.Eq(sp.Off, src.consumed), s.Eq(nb, s.Sub(src.length, src.consumed))), "assert",
 							"native quote is resumed with an input window that is not the unconsumed rest of the string (part of it is quoted twice, skipped, or read past its end)")
 					} else {
 						x.check(s.False, "assert", "native quote is given an input pointer outside the string being encoded")
+						x.abort(abEnd, "quote")
 					}
 					avail := x.asmTerm(x.loadLeafP(dnp, 0, 8, lkInt))
 					room := s.Sub(x.objLSize(dp.Obj), dp.Off)
@@ -134,7 +176,7 @@ func T3EncBufferBounds(p *AsmProg, kind string) func(x *Exec) {
 						}
 						k := x.junk(64)
 						x.assume(s.Ult(k, nb))
-						consumed = s.Add(consumed, k)
+						src.consumed = s.Add(src.consumed, k)
 						clobber(as, "CX", "DX", "SI", "DI", "R8", "R9", "R10", "R11")
 						as.R["AX"] = s.Not(k)
 					}
@@ -192,6 +234,30 @@ func T3EncBufferBounds(p *AsmProg, kind string) func(x *Exec) {
 						"the space reserved before the native float formatter is smaller than its longest output")
 					clobber(as, "CX", "DX", "SI", "DI", "R8", "R9", "R10", "R11")
 					as.R["AX"] = n
+					x.covers["formatted"] = true
+					return true
+				case sym.Name == "native.b64encode":
+					// b64encode(out *[]byte DI, src *[]byte SI, mode DX): appends 4*ceil(len(src)/3)
+					// bytes at out.ptr+out.len and adds that to out.len; it does not grow the slice
+					outp, ok1 := as.R["DI"].(Ptr)
+					srcp, ok2 := as.R["SI"].(Ptr)
+					if !ok1 || !ok2 || outp.Obj == nil || srcp.Obj == nil {
+						x.check(s.False, "assert", "native b64encode is called with non-pointer arguments")
+						x.abort(abEnd, "b64encode")
+					}
+					bp, okb := x.loadLeafP(outp, 0, 8, lkUintptr).(Ptr)
+					ol := x.asmTerm(x.loadLeafP(outp, 8, 8, lkInt))
+					oc := x.asmTerm(x.loadLeafP(outp, 16, 8, lkInt))
+					sl := x.asmTerm(x.loadLeafP(srcp, 8, 8, lkInt))
+					if !okb || bp.Obj == nil {
+						x.check(s.False, "assert", "native b64encode output slice has no storage")
+						x.abort(abEnd, "b64encode")
+					}
+					n := s.Mul(s.UDiv(s.Add(sl, x.c64(2)), x.c64(3)), x.c64(4))
+					x.check(s.BAnd(s.Ule(oc, s.Sub(x.objLSize(bp.Obj), bp.Off)), s.Ule(s.Add(ol, n), oc)), "assert",
+						"the space reserved before native b64encode is smaller than the base64 text of the value")
+					x.storeLeafP(outp, 8, 8, s.Add(ol, n))
+					clobber(as, "AX", "CX", "DX", "SI", "DI", "R8", "R9", "R10", "R11")
 					x.covers["formatted"] = true
 					return true
 				case strings.HasSuffix(sym.Name, "prim.EncodeJsonMarshaler") || strings.HasSuffix(sym.Name, "prim.EncodeTextMarshaler"):
